@@ -287,6 +287,10 @@ def run(ctx):
     n_panic = sum(1 for e in emitted if e == 'PANIC')
     ctx.oblige('correspondence:rtu-client-emission', bad == 0 and n_panic == 0, f'{bad} bad frames, {n_panic} panics over {len(sent)} emitted frames ({len(emit_lines)} requests)')
     longest = max([len(e) // 2 for e, _ in sent], default=0)
+    if not ctx.replay and emit_lines:
+        loud = ctx.harness('rtu_emit', emit_lines[:100], args=['--decode', 'max'], shards=4)
+        diff = [k for k, (a, b) in enumerate(zip(loud, emitted[:100])) if a != b]
+        ctx.oblige('decode-level-does-not-change-emission', not diff, f'{len(diff)} of {len(loud)} differ' + (f'; first: {emit_lines[diff[0]][:120]}' if diff else ''))
 
     # ---- the server session: replies carry a correct CRC; corrupted requests cause no call and no reply
     if server_cases is None:
@@ -317,6 +321,10 @@ def run(ctx):
                 reply_src.append(fc.to_line(('rtureq', 'stop', fin, ch))[:200])
                 reply_rc.append({'server': 1, 'fin': fin, 'chunks': [x.hex() for x in ch]})
     bad_rep = check_emitted(ctx, 'server', replies, reply_src, reply_rc) if replies else 0
+    if not ctx.replay and server_cases:
+        loud = ctx.harness('server_session', [' '.join(['rtu', fin] + [(x.hex() if x else '-') for x in ch]) for fin, ch in server_cases[:150]], args=['--decode', 'max'], shards=4)
+        diff = [k for k, (a, b) in enumerate(zip(loud, srv[:150])) if a != b]
+        ctx.oblige('decode-level-does-not-change-server-session', not diff, f'{len(diff)} of {len(loud)} differ')
     ctx.oblige('correspondence:rtu-server-session', bad_srv == 0 and bad_rep == 0,
                f'{bad_srv} session mismatches over {len(server_cases)} sessions ({n_silent} must stay silent); {bad_rep} bad replies of {len(replies)}')
     longest = max([longest] + [len(x) // 2 for x in replies])
